@@ -152,7 +152,9 @@ class Ctx:
 
     # ---- sizing
     def n(self, quick, thorough):
-        return quick if self.quick else thorough
+        v = quick if self.quick else thorough
+        sc = float(os.environ.get('VERIF_SCALE') or 1)
+        return v if sc == 1 or not v else max(1, int(v * sc))
 
     def my(self, iterable):
         """this shard's slice of an enumeration (round robin)"""
@@ -398,7 +400,7 @@ def save_replay(prop, key, rec):
     name = hashlib.sha1(key.encode()).hexdigest()[:10] + '.json'
     path = os.path.join(d, name)
     with open(path, 'w') as f:
-        json.dump({'property': prop, 'key': key, 'task': rec.get('task'), 'seed': rec.get('seed'),
+        json.dump({'property': prop, 'key': key, 'task': rec.get('task'), 'seed': rec.get('seed'), 'python_O': bool(sys.flags.optimize),
                    'message': rec['message'], 'case': rec['case']}, f, indent=1, default=_json_default)
     return path
 
@@ -420,6 +422,11 @@ def load_case(path):
 def replay(prop, path):
     mod = load_module(prop.lower())
     rec = load_case(path)
+    if rec.get('python_O') and not sys.flags.optimize:
+        # found by the pass that runs the interpreter with -O (asserts stripped): reproduce it the same way
+        import subprocess
+        return subprocess.call([sys.executable, '-B', '-c', 'from vlib.runner import entry; entry()', prop, '--replay', path],
+                               env=dict(os.environ, PYTHONOPTIMIZE='1'))
     out = io.StringIO()
     try:
         with contextlib.redirect_stdout(out):
@@ -488,6 +495,30 @@ def main(argv):
         for e in errors:
             print('HARNESS-ERROR property=%s %s' % (prop, e), file=sys.stderr)
         return 2
+    # ---- a second pass of the QUICK-tier workload with the interpreter in -O mode (asserts stripped, __debug__ False): the
+    # properties are about what the library does for its users, whatever flags their interpreter runs with. Its violations are
+    # reported like the others; replay files remember the mode. (VERIF_NO_PYOPT=1 switches it off.)
+    pyopt_note = None
+    pyopt_vios = []
+    if not sys.flags.optimize and not os.environ.get('VERIF_NO_PYOPT'):
+        import subprocess
+        import tempfile
+        evtmp = tempfile.mkdtemp(prefix='pyopt-ev.', dir=os.environ.get('VERIF_WORK') or tempfile.gettempdir())
+        try:
+            # (quick tier: generated-case counts scaled to 30 %, enumerations in full; thorough tier: the whole quick workload)
+            env = dict(os.environ, PYTHONOPTIMIZE='1', VERIF_EVIDENCE_DIR=evtmp, VERIF_NO_PYOPT='1', VERIF_SCALE='0.3' if tier == 'quick' else '1')
+            p = subprocess.run([sys.executable, '-B', '-c', 'from vlib.runner import entry; entry()', prop, 'quick'], env=env, capture_output=True, text=True)
+            if p.returncode not in (0, 1) or not os.path.exists(os.path.join(evtmp, prop + '.json')):
+                print('HARNESS-ERROR property=%s python -O pass: rc=%d %s' % (prop, p.returncode, (p.stderr or p.stdout)[-1500:]), file=sys.stderr)
+                return 2
+            ev2 = json.load(open(os.path.join(evtmp, prop + '.json')))
+            pyopt_vios = ev2['violation_list']
+            pyopt_note = 'second pass under python -O (%s): %d evaluations, %d violation key(s), %.0fs' % (
+                'quick-tier workload' if tier != 'quick' else 'generated-case counts at 30 %, enumerations in full',
+                ev2['coverage']['evaluations'], ev2['violations'], ev2['wall_s'])
+        finally:
+            import shutil
+            shutil.rmtree(evtmp, ignore_errors=True)
     # ---- aggregate
     evals = sum(r['evals'] for r in results)
     nt = set()
@@ -531,6 +562,13 @@ def main(argv):
         print('  key=%s\n  %s' % (key, rec['message'][:600]), file=real_stdout)
         vio_out.append({'key': key, 'replay': path, 'message': rec['message'][:600]})
         rc = 1
+    for v in pyopt_vios:
+        print('VIOLATION property=%s replay=%s' % (prop, v['replay']), file=real_stdout)
+        print('  key=python-O/%s\n  (interpreter run with -O) %s' % (v['key'], v['message'][:600]), file=real_stdout)
+        vio_out.append({'key': 'python-O/' + v['key'], 'replay': v['replay'], 'message': v['message'][:600]})
+        rc = 1
+    if pyopt_note:
+        notes.append(pyopt_note)
     wall = time.time() - t0
     evidence = {
         'property_id': prop, 'tier': tier, 'seed': seed, 'level': mod.LEVEL,
@@ -541,7 +579,7 @@ def main(argv):
             'excluded_known': dict(excluded), 'coverage_gaps': problems, 'notes': notes,
             'oracle_selftest': getattr(mod, 'SELFTEST_NOTE', 'passed'),
         },
-        'assumptions': list(mod.ASSUMPTIONS), 'wall_s': round(wall, 2), 'violations': len(violations),
+        'assumptions': list(mod.ASSUMPTIONS), 'wall_s': round(wall, 2), 'violations': len(violations) + len(pyopt_vios),
         'violation_list': vio_out, 'repo': REPO,
     }
     evdir = os.environ.get('VERIF_EVIDENCE_DIR') or os.path.join(VERIF, 'evidence')
@@ -549,7 +587,7 @@ def main(argv):
     with open(os.path.join(evdir, prop + '.json'), 'w') as f:
         json.dump(evidence, f, indent=1, default=_json_default)
     print('%s %s seed=%d: %d evaluations, %d distinct non-trivial, %d violation key(s), %.1fs%s' % (
-        prop, tier, seed, evals, nt_count, len(violations), wall,
+        prop, tier, seed, evals, nt_count, len(violations) + len(pyopt_vios), wall,
         (' GAPS: ' + '; '.join(problems)) if problems else ''), file=real_stdout)
     return rc
 
